@@ -1,7 +1,7 @@
 (* C02 -- Transactions are authenticated by every signer and cannot be replayed.
    Only statements, each closed by [exact] of a lemma from Proofs/Auth.v, and its assumptions.
    The four crypto functions are universally quantified: nothing is assumed about them. *)
-From Sekai Require Import Base.Prelude Model.Auth Model.C02Check Proofs.Auth.
+From Sekai Require Import Base.Prelude Model.Auth Model.C02Check Model.C02Chain Gen.C02AnteChain Proofs.Auth.
 
 (* HEADLINE (full strength, no guard on the transaction).  The tree as it is = the [repaired]
    variant (the check script establishes this on every run with two probe transactions and the whole
@@ -43,6 +43,26 @@ Theorem C02_accept_authorised_refuted_cosigner :
     ~ Forall2 (Authorised verify recover addr_of_pk eth_sender c s t) (signers t) (t_slots t).
 Proof. exact accept_authorised_refuted_cosigner. Qed.
 Print Assumptions C02_accept_authorised_refuted_cosigner.
+
+(* ---- the theorems are about the WHOLE chain.  Gen/C02AnteChain.v is REGENERATED from app/ante/*.go on
+   every run: the decorators of NewAnteHandler in order, and the shape of every `return` of every custom
+   AnteHandle.  On the tree as it is: the translator met nothing outside its fragment; no custom decorator
+   has a successful return that does not call next(ctx', tx, simulate) -- every return is next(...) or a
+   non-nil error, and each decorator has a next(...) -- (no exceptions to pin); the SDK decorators are the
+   ten of cosmos-sdk v0.47.6 known to continue; ValidateBasic, SetPubKey, SigGasConsume, SigVerification and
+   IncrementSequence are all present, in this order. *)
+Theorem C02_whole_chain_continues : chain_ok c02_chain c02_returns c02_gen_errors = true.
+Proof. vm_compute. reflexivity. Qed.
+Print Assumptions C02_whole_chain_continues.
+(* what that buys: in a chain none of whose decorators accepts without calling next, an accepted
+   transaction went through EVERY decorator (in particular the four authentication steps) *)
+Theorem C02_chain_accept_runs_every_decorator :
+  forall (S : Type) (pre : list (S -> dstep S)) d post s s',
+  Forall (never_stops S) (pre ++ d :: post) ->
+  run_chain S (pre ++ d :: post) s = Some s' ->
+  exists s1 s2, run_chain S pre s = Some s1 /\ d s1 = DNext S s2 /\ run_chain S post s2 = Some s'.
+Proof. exact chain_accept_runs_every_decorator. Qed.
+Print Assumptions C02_chain_accept_runs_every_decorator.
 
 (* The "exactly one message" rule of the Ethereum path is an obligation of EACH branch (the EIP-712
    digest / the raw Ethereum transaction cover the first message only): relaxing either refutes the
